@@ -175,8 +175,14 @@ def run(ctx):
                        ("Pq", pqa[i], T.Pq), ("Pq-formula", pqa[i], cqa[i] * math.sqrt(1 + eta ** 2 / 3)), ("Q", Q[i], data[e][str(got[i])]["Q"]),
                        ("aniso", arr["aniso"][i], T.anisotropy), ("red", arr["red"][i], T.reduced_anisotropy), ("asym", arr["asym"][i], T.asymmetry),
                        ("span", arr["span"][i], T.span), ("skew", arr["skew"][i], T.skew)]
+                # eta = 1 (two principal values of equal magnitude and opposite sign): which of them is "Vzz" - and hence the sign of Vzz, Cq and the NQR
+                # frequencies - is not fixed by the convention (the tie class of C02-F02); the formulas are then compared up to that sign
+                mags = sorted(abs(x) for x in ev)
+                sign_free = abs(mags[2] - mags[1]) <= 1e-9 * max(1.0, mags[2])
                 for name, a_, b_ in chk:
                     ctx.evaluations += 1
+                    if sign_free and name.endswith("-formula"):
+                        a_, b_ = abs(a_), abs(b_)
                     if not close(a_, b_, 1e-8):
                         ctx.fail_input("efg", dict(elems=elems, atom=i, prop=name, **{k: str(v) for k, v in opts.items()}), "%s: array route %r != %r" % (name, float(a_), float(b_)), None)
                 # NQR lines
@@ -192,7 +198,7 @@ def run(ctx):
                         f = 3 * A * (2 * m + 1) * math.sqrt(1 + eta ** 2 / 3)
                         key = "m=%s->%s" % (m, m + 1)
                         ctx.evaluations += 1
-                        if key not in an or not close(an[key], tn[key], 1e-8) or not close(an[key], f, 1e-8):
+                        if key not in an or not close(an[key], tn[key], 1e-8) or not close(abs(an[key]) if sign_free else an[key], abs(f) if sign_free else f, 1e-8):
                             ctx.fail_input("efg", dict(elems=elems, atom=i, prop="NQR"), "NQR line %s: array %r object %r formula %r" % (key, an.get(key), tn.get(key), f), None)
             ctx.seen(("efg", use_q, bool(iso_dict), iso_list is not None))
         except Exception as e:
